@@ -327,6 +327,7 @@ func (g *tgen) trajectory(style int) (t0 int64, clk [][2]int64) {
 	}
 	steps := r.Range(2, 14)
 	backs := 0
+	bigUsed := false
 	for i := 0; i < steps; i++ {
 		c := r.Intn(10)
 		switch {
@@ -364,8 +365,13 @@ func (g *tgen) trajectory(style int) (t0 int64, clk [][2]int64) {
 			push(t, 1)
 		case style == 4:
 			t = maxTU + int64(r.Range(-2, 2))
-			if t <= maxTU {
+			if t <= maxTU && !bigUsed {
+				// once per trajectory: coming back to an exhausted unit would spend a
+				// millisecond of real sleep per reading in the wait loop
+				bigUsed = true
 				push(t, int64(r.PickInt(1, 2, 1024, 1025, 1026)))
+			} else if t <= maxTU {
+				push(t, int64(r.Range(1, 2)))
 			} else {
 				push(t, int64(r.Range(1, 3)))
 			}
